@@ -263,13 +263,17 @@ type QualityFeature interface {
 // of good sequence. http://www.phrap.org/phredphrap/phred.html
 func Trim(q QualityFeature, limit float64) (start, end int) {
 	var sum, max float64
+	// begin is the start of the window that sum currently covers;
+	// it becomes the returned start only when that window is the best.
+	begin := q.Start()
+	start, end = begin, begin
 	for i := q.Start(); i < q.End(); i++ {
 		sum += limit - q.EAt(i)
 		if sum < 0 {
-			sum, start = 0, i+1
+			sum, begin = 0, i+1
 		}
 		if sum >= max {
-			max, end = sum, i+1
+			max, start, end = sum, begin, i+1
 		}
 	}
 	return
